@@ -201,3 +201,30 @@ impl T {
         self.vals.iter().all(|x| x.v.is_finite() && x.d.iter().all(|t| t.is_finite()))
     }
 }
+
+/// shapes with a given element count (rank <= 4)
+pub fn shapes_with_numel(n: usize) -> Vec<Vec<usize>> {
+    let mut out = vec![];
+    fn rec(n: usize, rank_left: usize, cur: &mut Vec<usize>, out: &mut Vec<Vec<usize>>) {
+        if rank_left == 0 {
+            if n == 1 && !cur.is_empty() {
+                out.push(cur.clone());
+            }
+            return;
+        }
+        if n == 1 && !cur.is_empty() {
+            out.push(cur.clone());
+        }
+        for d in 1..=n {
+            if n % d == 0 {
+                cur.push(d);
+                rec(n / d, rank_left - 1, cur, out);
+                cur.pop();
+            }
+        }
+    }
+    rec(n, 4, &mut vec![], &mut out);
+    out.sort();
+    out.dedup();
+    out
+}
